@@ -330,6 +330,21 @@ def run(c, tier, what):
     io = lib.run_lines([exe], lines)
     parsed = [parse_case(l) for l in lines]
     split = [split_io(o) for o in io]
+    # ---- the two non-default build configurations the project supports (PARMCB_LOGGING=ON, PARMCB_INVARIANTS_CHECK=OFF): same class of answer (k = 0 still
+    # rejected before anything is emitted), same returned value and count, and a valid basis of the caller's graph there too
+    def _pub(o):
+        try: return split_io(o)[0]
+        except Exception: return o
+    def _canon(o):
+        a_ = parse_answer(_pub(o))
+        return (a_[0], a_[1], len(a_[2])) if a_ and a_[0] == "RET" else (_pub(o).strip()[:60],)
+    def _judge(cs, o):
+        alg_, ty_, sc_, k_, n_, es_ = parse_case(cs)
+        if k_ == 0:
+            return None if _pub(o).strip() == "THROW runtime_error EMITTED 0" else "k = 0 was not rejected with std::runtime_error before anything was emitted: %s" % _pub(o)[:160]
+        return judge_basis(n_, es_, k_, _pub(o))
+    xi = [i for i, l in enumerate(lines) if l.startswith("X ")]
+    lib.config_differential(c, "c05", ["c05.cpp"], [lines[i] for i in xi], [io[i] for i in xi], judge=_judge, canon=_canon, libs=LIBS, limit=900, judge_all=True)
     # ---- model runs ---------------------------------------------------------------------------------------------
     mcase = {}
     for i, l in enumerate(lines):
@@ -521,6 +536,7 @@ def replay_case(pid, path, what):
 # the TBB-parallel approximate entry points under the controllable fake TBB (harness/c05_tbb.cpp, shim build)
 # ================================================================================================================
 # Theorems: Properties_C03_approx.v.  Model: ApproxParModel.approx_run_tbb (extraction group c05: signedtbb / giventbb).
+# Weight types: double, int and long long (P <alg> L ...: 64-bit integers above 2^53, tbb_cases64); Python integers only on this side.
 # Per case the harness prints PUB (public entry point under (bits, perm1), the shim's own protocol), DIR (the same two
 # statements on an object it keeps; the library's exact functor wrapped by a hook that records the stream position after the
 # exact phase and installs the two insertion orders permc / permw of the builder's concurrent_vectors) and SEQ (the
@@ -583,6 +599,21 @@ def tbb_base_cases(rng, tier):
                 ty = "I" if (i % 3 == TBB_ALGS.index(alg)) and gen.int_domain_ok(g) else "D"
                 scale = 0 if ty == "I" else rng.choice([0, 0, -3, 5])
                 out.append(tbb_line(alg, ty, scale, k, tbb_rand_bits(rng), [], [], [], gt))
+    return out
+
+
+def tbb_cases64(rng, tier):
+    """the three *_tbb entry points instantiated with long long weights above 2^53 (props/c12.py weigh64; kind token L; the model computes over Z and never sees
+    the weight type)"""
+    from props import c12
+    out = []
+    for i in range(70 if tier == "quick" else 500):
+        g, style = c12.weigh64(rng, tbb_graph(rng, 11 if tier == "quick" else 18), rng.choice(["ladder", "ladder", "p54", "p53", "top", "mix"]))
+        gt = gen.graph_tokens(g)
+        ks = [rng.choice([1, 2, 2, 3, 5])] if rng.random() < 0.6 else [1, rng.choice([2, 3, 5])]
+        if i % 29 == 0: ks.append(0)
+        for k in ks:
+            for alg in TBB_ALGS: out.append(tbb_line(alg, "L", 0, k, tbb_rand_bits(rng), [], [], [], gt))
     return out
 
 
@@ -692,11 +723,15 @@ def run_tbb(c, tier, what):
     pid = c.pid
     corpus = [cs for cs in lib.corpus_cases(pid) if cs.startswith("P ")]
     base = tbb_base_cases(c.rng, tier)
-    out1 = lib.run_lines([exe], base)
-    extra = tbb_second_batch(c.rng, base, out1, tier)
+    import random
+    rng64 = random.Random(c.seed * 7919 + 565)          # the 64-bit integer instantiation: own generator stream (the double / int stream is unchanged)
+    base64 = tbb_cases64(rng64, tier)
+    out1 = lib.run_lines([exe], base + base64)
+    extra = tbb_second_batch(c.rng, base, out1[:len(base)], tier) + tbb_second_batch(rng64, base64, out1[len(base):], tier)
     out2 = lib.run_lines([exe], corpus + extra)
-    lines = corpus + extra + base
+    lines = corpus + extra + base + base64
     io = out2 + out1
+    c.extra["tbb_cases_64bit_weights"] = len(base64) + sum(1 for l in extra if l.split()[2] == "L")
     parsed = [tbb_parse_case(l) for l in lines]
     split = [tbb_split_io(o) for o in io]
     mcase = {}
